@@ -96,6 +96,9 @@ def _draw_start(rng):
 
 
 def generate(rng, index, tier):
+    if rng.random() < 0.08:
+        from . import c20_pair
+        return c20_pair.generate(rng, index, tier)
     mode = rng.choices(('up', 'down', 'both'), (0.6, 0.2, 0.2))[0]
     sides = list(SIDES) if mode == 'both' else [mode]
     initial = {}
@@ -230,7 +233,8 @@ def _transition_plans():
 
 
 def corpus(tier):
-    out = []
+    from . import c20_pair
+    out = list(c20_pair.corpus(tier))
     # 1. constant limit, one and four saturating consumers
     for lim in (0,) + LIMITS:
         for n in (1, 4):
@@ -294,6 +298,8 @@ SHRINK_LISTS = ('consumers', 'changes')
 
 
 def simplify(plan):
+    if plan.get('shape') == 'pair':
+        return
     for i, c in enumerate(plan.get('consumers', [])):
         if c.get('batch', 1) > 1:
             for nb in (1, c['batch'] // 2):
@@ -349,6 +355,9 @@ def _copy(plan):
 # ----------------------------------------------------------------------------- run
 
 def run(plan):
+    if plan.get('shape') == 'pair':
+        from . import c20_pair
+        return c20_pair.run(plan)
     world = World(plan, PROPERTY)
     try:
         return _run(world, plan)[0]
